@@ -239,8 +239,14 @@ def main(argv):
         import signal
 
         def _term(signum, frame):
-            # a killed run must not leave orphaned workers behind
-            pool.terminate()
+            # a killed run must not leave orphaned workers behind; the
+            # workers are killed directly (Pool.terminate() can dead-lock
+            # when called from a signal handler)
+            for w in list(getattr(pool, "_pool", []) or []):
+                try:
+                    os.kill(w.pid, signal.SIGKILL)
+                except Exception:
+                    pass
             os._exit(143)
         signal.signal(signal.SIGTERM, _term)
         it = pool.imap_unordered(_worker, jobs)
